@@ -161,11 +161,13 @@ def apply_real(m, w, conts):
     raise ValueError('unknown op %r' % (op,))
 
 
-def real_history(m, ops, on_state=None):
+def real_history(m, ops, ties=False):
     """-> list aligned with `ops`: state wire | {'err':'assert'} | {'raise': name} | None
     (None = inner op of a composition, not compared)."""
     exp = []
     i = 0
+    if ties and quad_tie(m):
+        return [{'tie': True}] + [None] * (len(ops) - 1)
     while i < len(ops):
         k = n_cont(ops, i)
         try:
@@ -176,7 +178,7 @@ def real_history(m, ops, on_state=None):
             res = {'err': 'assert'}
         except Exception as e:      # noqa: BLE001 - anything the code throws is recorded
             res = {'raise': type(e).__name__}
-        if on_state is not None and quad_tie(m):
+        if ties and not ops[i]['op'].startswith('read_') and quad_tie(m):
             res = {'tie': True}
         exp.extend([None] * k + [res])
         i += 1 + k
@@ -280,6 +282,8 @@ def compare_states(a, e):
     for k in SLOTS:
         sa, se = slot_shape(a, k), slot_shape(e, k)
         if sa != se:
+            if _kind(sa) == _kind(se):
+                return 'slot %s: length differs' % k, 'model %s real %s' % (sa, se)
             return 'slot %s: model %s, real %s' % (k, _kind(sa), _kind(se)), \
                 'model %s real %s' % (sa, se)
     for k in SLOTS:
@@ -508,7 +512,7 @@ def random_history(r, stream, hist, max_len=8):
     m, src = random_mesh(r, stream, hist)
     bump(hist['source'], src)
     warm = 0
-    for _ in range(r.choice([0, 0, 1, 2, 3])):       # pre-history reads: warm cache
+    for _ in range(r.choice([0, 0, 0, 1, 2, 3])):       # pre-history reads: warm cache
         try:
             getattr(m, r.choice(READS))
             warm += 1
@@ -527,7 +531,7 @@ def random_history(r, stream, hist, max_len=8):
         except Exception:       # noqa: BLE001
             pass
         ops.extend(ws)
-    exp = real_history(m, ops, on_state=True)
+    exp = real_history(m, ops, ties=True)
     args = [start['vertices'], start['faces'], {k: start[k] for k in SLOTS}, ops]
     return args, exp
 
@@ -605,26 +609,31 @@ def fixed_corpus():
 
 # ------------------------------------------------------------------ run
 def budget(ctx):
+    """-> (thorough?, stop generating, stop shrinking)."""
     thorough = ctx.tier == 'thorough' or bool(getattr(ctx, 'broken', None))
-    wall = 240.0 if thorough else 14.0
-    return thorough, min(time.time() + wall, getattr(ctx, 'deadline', float('inf')) - 5)
+    wall = 200.0 if thorough else 13.0
+    t = time.time()
+    return thorough, min(t + wall, getattr(ctx, 'deadline', float('inf')) - 5), \
+        t + (285.0 if thorough else 16.0)
 
 
 def signature(ops, i, what):
     return '%s|%s: %s' % (OP, real_op_name(ops, i), what)
 
 
-def nontrivial_steps(args, exp):
-    """Compared steps in which a memo value is in play: a read on a warm cache, or any other
-    op whose resulting state carries a filled slot, or an error step."""
+def nontrivial_steps(args, exp, limit):
+    """Among the first `limit` compared steps: those in which a memo value is in play — a read
+    on a warm cache, any other op whose resulting state carries a filled slot, an error step."""
     n = 0
     prev_filled = any(args[2].get(k) is not None for k in SLOTS)
     ops = args[3]
+    seen = 0
     for i, e in enumerate(exp):
         if e is None:
             continue
-        if 'tie' in e:
+        if 'tie' in e or seen >= limit:
             break
+        seen += 1
         if 'err' in e or 'raise' in e:
             n += 1
             continue
@@ -640,7 +649,7 @@ def nontrivial_steps(args, exp):
 def check_one(driver, args):
     """Run one history on both sides -> None | disagreement core (step, what, detail)."""
     m = mesh_from_wire(dict(args[2], vertices=args[0], faces=args[1]))
-    exp = real_history(m, args[3], on_state=True)
+    exp = real_history(m, args[3], ties=True)
     ok, val = driver.run([(OP, args)])[0]
     if not ok:
         return (0, 'driver error', str(val)[:200])
@@ -666,7 +675,7 @@ def shrink(driver, args, what_key, deadline):
         exps = []
         for c in cands:
             m = mesh_from_wire(dict(c[2], vertices=c[0], faces=c[1]))
-            exps.append(real_history(m, c[3], on_state=True))
+            exps.append(real_history(m, c[3], ties=True))
         answers = driver.run([(OP, c) for c in cands])
         better = None
         for c, e, (ok, val) in zip(cands, exps, answers):
@@ -695,7 +704,7 @@ def make_disagreement(args, bad, seed):
 
 def run(ctx, prop):
     t0 = time.time()
-    thorough, stop = budget(ctx)
+    thorough, stop, hard_stop = budget(ctx)
     hist = {'source': {}, 'start_cache': {}, 'ops': {}, 'history_length': {}, 'stream': {},
             'faces_at_start': {}, 'real_errors': {}, 'face_areas_kind': {},
             'filled_slots_per_state': {}}
@@ -725,7 +734,7 @@ def run(ctx, prop):
                 n, tie, bad = compare_history(ops, val, exp)
             out['requests'] += n
             out['float_ties'] += 1 if tie else 0
-            out['nontrivial'] += nontrivial_steps(args, exp)
+            out['nontrivial'] += nontrivial_steps(args, exp, n)
             for e in exp:
                 if e is None or 'tie' in e:
                     continue
@@ -747,13 +756,13 @@ def run(ctx, prop):
     for m, ops in fixed_corpus():
         start = state_wire(m)
         args = [start['vertices'], start['faces'], {k: start[k] for k in SLOTS}, ops]
-        cases.append((args, real_history(m, ops, on_state=True)))
+        cases.append((args, real_history(m, ops, ties=True)))
         bump(hist['source'], 'fixed corpus')
     do_batch(cases, 'fixed')
 
     # random histories
     r = random.Random('%s/corr.meshcache2d' % ctx.seed)
-    per_batch = 1500 if thorough else 260
+    per_batch = 1500 if thorough else 450
     rounds = 0
     while time.time() < stop and (rounds < 1 or thorough) and rounds < 12:
         cases = []
@@ -766,11 +775,11 @@ def run(ctx, prop):
         do_batch(cases, 'round%d' % rounds)
         rounds += 1
 
-    for sig in sorted(found)[:8]:
+    for n, sig in enumerate(sorted(found)[:8]):
         d = found[sig]
-        if time.time() < stop + 20:
+        if n < 3 and time.time() < hard_stop:
             try:
-                d['args'] = shrink(ctx.driver, d['args'], sig, stop + 20)
+                d['args'] = shrink(ctx.driver, d['args'], sig, hard_stop)
             except Exception:       # noqa: BLE001 - shrinking is best effort
                 pass
         out['disagreements'].append(d)
